@@ -81,14 +81,17 @@ Section Frames.
   Lemma next_seq_ext s s' a b : sget (nextseq_key P a b) s' = sget (nextseq_key P a b) s -> next_seq P s' a b = next_seq P s a b.
   Proof. unfold next_seq. intros ->. reflexivity. Qed.
 
-  Lemma next_seq_after_set s a b n : n < two64 -> next_seq P (set_kv (nextseq_key P a b) (be64 n) s) a b = Ok n.
+  Lemma next_seq_val s a b n : n < two64 -> sget (nextseq_key P a b) s = Some (be64 n) -> next_seq P s a b = Ok n.
   Proof.
-    intro H. unfold next_seq. rewrite sget_set_kv_same.
-    pose proof (length_be64 n) as L. destruct (be64 n) as [|x l] eqn:E; [discriminate|].
-    rewrite L. cbn [Nat.ltb Nat.leb]. rewrite <- E.
+    intros H E. unfold next_seq. rewrite E.
+    pose proof (length_be64 n) as L. destruct (be64 n) as [|x l] eqn:E2; [discriminate|].
+    rewrite L. cbn [Nat.ltb Nat.leb]. rewrite <- E2.
     replace (firstn 8 (be64 n)) with (be64 n) by (symmetry; apply firstn_all2; rewrite length_be64; lia).
     rewrite unbe_be64, N.mod_small by assumption. reflexivity.
   Qed.
+
+  Lemma next_seq_after_set s a b n : n < two64 -> next_seq P (set_kv (nextseq_key P a b) (be64 n) s) a b = Ok n.
+  Proof. intro H. apply next_seq_val; [exact H | apply sget_set_kv_same]. Qed.
 
   Lemma next_seq_bound s a b n : next_seq P s a b = Ok n -> n < two64.
   Proof.
@@ -419,3 +422,45 @@ Section Handlers.
     - left. inversion H; subst. split; [assumption | reflexivity].
   Qed.
 End Handlers.
+
+(** variants of the CallPacket induction principles for a specific ghost event *)
+Section CallRel.
+  Variable P : params.
+
+  Lemma call_packet_rel_e (R : cstate -> cstate -> Prop) s e cb s' :
+    (forall s, R s s) -> (forall a b c, R a b -> R b c -> R a c) ->
+    (forall s p ok s', send_packet P s p ok = Ok s' -> R s s') ->
+    R s (add_log e s) ->
+    call_packet P s e cb = Ok s' -> R s s'.
+  Proof.
+    intros Rr Rt Hs Hl H. unfold call_packet in H.
+    destruct (cb_fail cb); [discriminate|].
+    eapply Rt; [apply Hl|]. eapply hook_sends_rel; eauto.
+  Qed.
+
+  (** relation that may depend on an invariant holding at the source state *)
+  Lemma hook_sends_rel_inv (I : cstate -> Prop) (R : cstate -> cstate -> Prop) :
+    (forall s, R s s) -> (forall a b c, R a b -> R b c -> R a c) ->
+    (forall s p ok s', I s -> send_packet P s p ok = Ok s' -> I s' /\ R s s') ->
+    forall l s s', I s -> hook_sends P s l = Ok s' -> I s' /\ R s s'.
+  Proof.
+    intros Rr Rt Hs l. induction l as [|[p ok] l IH]; intros s s' Is H; cbn in H.
+    - inversion H; subst; split; [assumption | apply Rr].
+    - destruct (send_packet P s p ok) as [s1| |] eqn:E; cbn in H; try discriminate.
+      destruct (Hs _ _ _ _ Is E) as [I1 R1]. destruct (IH _ _ I1 H) as [I2 R2].
+      split; [assumption | eapply Rt; eauto].
+  Qed.
+
+  Lemma call_packet_rel_inv (I : cstate -> Prop) (R : cstate -> cstate -> Prop) s e cb s' :
+    (forall s, R s s) -> (forall a b c, R a b -> R b c -> R a c) ->
+    (forall s p ok s', I s -> send_packet P s p ok = Ok s' -> I s' /\ R s s') ->
+    (I s -> I (add_log e s) /\ R s (add_log e s)) ->
+    I s -> call_packet P s e cb = Ok s' -> I s' /\ R s s'.
+  Proof.
+    intros Rr Rt Hs Hl Is H. unfold call_packet in H.
+    destruct (cb_fail cb); [discriminate|].
+    destruct (Hl Is) as [I1 R1].
+    destruct (hook_sends_rel_inv I R Rr Rt Hs _ _ _ I1 H) as [I2 R2].
+    split; [assumption | eapply Rt; eauto].
+  Qed.
+End CallRel.
